@@ -34,9 +34,9 @@ def deep_equal(seq1: Iterable[Any],
     def etree_deep_equal(e1: ElementProtocol, e2: ElementProtocol, tails: bool = False) -> bool:
         if cm.ne(e1.tag, e2.tag):
             return False
-        elif cm.ne((e1.text or '').strip(), (e2.text or '').strip()):
+        elif cm.ne(e1.text or '', e2.text or ''):
             return False
-        elif tails and cm.ne((e1.tail or '').strip(), (e2.tail or '').strip()):
+        elif tails and cm.ne(e1.tail or '', e2.tail or ''):
             return False  # the tail of the compared nodes is a sibling text node
         elif len(e1) != len(e2) or len(e1.attrib) != len(e2.attrib):
             return False
